@@ -1,6 +1,8 @@
 package fixture
 
 import (
+	"bufio"
+	"io"
 	"log"
 	"os"
 )
@@ -158,4 +160,21 @@ func C01FormatText() {
 	text := c01text()
 	log.Printf(text + "\n")
 	log.Printf("%s\n", text)
+}
+
+// SCANNER-ERR controls (C06).
+func C06ScanNoErr(r io.Reader) (out []string) {
+	sc := bufio.NewScanner(r)
+	for sc.Scan() {
+		out = append(out, sc.Text())
+	}
+	return
+}
+
+func C06ScanErr(r io.Reader) (out []string, err error) {
+	sc := bufio.NewScanner(r)
+	for sc.Scan() {
+		out = append(out, sc.Text())
+	}
+	return out, sc.Err()
 }
